@@ -137,12 +137,19 @@ def run_construct(case):
 
 
 # ---- part 2 -------------------------------------------------------------------------------------------------------------
-NETS = ['C_auto', 'CL', 'CLS', 'mixed_C_then_CL', 'narrowC', 'CLS_then_CL', 'C_wideSI']
+NETS = ['C_auto', 'CL', 'CLS', 'mixed_C_then_CL', 'narrowC', 'CLS_then_CL', 'C_wideSI', 'wide_then_CL', 'wide_then_CLS']
 
 
 def library():
     eq = c15.library()
     eq['Edfa'].append({'type_variety': 'std_low_gain_S', 'f_min': 196.5e12, 'f_max': 200.0e12, 'type_def': 'variable_gain',
+                       'gain_flatmax': 16, 'gain_min': 8, 'p_max': 21, 'nf_min': 7, 'nf_max': 11, 'out_voa_auto': False,
+                       'allowed_for_design': False})
+    # one single-band amplifier whose band spans the L and the C band of the multi-band amplifiers (and beyond)
+    eq['Edfa'].append({'type_variety': 'wide_LC', 'f_min': 186.0e12, 'f_max': 196.3e12, 'type_def': 'variable_gain',
+                       'gain_flatmax': 16, 'gain_min': 8, 'p_max': 21, 'nf_min': 7, 'nf_max': 11, 'out_voa_auto': False,
+                       'allowed_for_design': False})
+    eq['Edfa'].append({'type_variety': 'wide_LCS', 'f_min': 186.0e12, 'f_max': 200.5e12, 'type_def': 'variable_gain',
                        'gain_flatmax': 16, 'gain_min': 8, 'p_max': 21, 'nf_min': 7, 'nf_max': 11, 'out_voa_auto': False,
                        'allowed_for_design': False})
     eq['Edfa'].append({'type_variety': 'mb3', 'type_def': 'multi_band',
@@ -193,6 +200,17 @@ def network(name):
         rp = {'A': {'params': {'design_bands': [CB, LB, SB]}}, 'C': {'params': {'design_bands': [CB, LB]}},
               'B': {'params': {'design_bands': [CB, LB], 'per_degree_design_bands': {'B>A:0:Multiband_amplifier': [CB, LB, SB]}}}}
         return c.build_topology(['A', 'B', 'C'], [('A', 'B', span(mb3), span(mb3)), ('B', 'C', span(mb2), span(mb2))],
+                                roadm_params=rp)
+    if name in ('wide_then_CL', 'wide_then_CLS'):
+        # a wide single-band amplifier section, then a multi-band section: the common band has several pieces inside ONE band
+        wide = 'wide_LC' if name == 'wide_then_CL' else 'wide_LCS'
+        ew = lambda: c.edfa(wide)      # noqa
+        WB = {'f_min': 186.0e12, 'f_max': 196.3e12 if name == 'wide_then_CL' else 200.5e12, 'spacing': 50e9}
+        bands = [CB, LB] if name == 'wide_then_CL' else [CB, LB, SB]
+        m = mb2 if name == 'wide_then_CL' else mb3
+        rp = {'A': {'params': {'design_bands': [WB]}}, 'C': {'params': {'design_bands': bands}},
+              'B': {'params': {'design_bands': bands, 'per_degree_design_bands': {'B>A:0:Edfa': [WB]}}}}
+        return c.build_topology(['A', 'B', 'C'], [('A', 'B', span(ew), span(ew)), ('B', 'C', span(m), span(m))],
                                 roadm_params=rp)
     raise ValueError(name)
 
